@@ -668,6 +668,51 @@ def run (j : Json) : Except String Json := do
         | none => 0
       if model == "sisIndividual" then pure (out n (sisIndividual nbrs tr (v 0) (v 1)))
       else let r := sirIndividual nbrs tr (v 0) (v 1) (v 2); pure (out n r.1 ++ out n r.2)
+    | "sisHetPW" | "sirHetPW" => do
+      let mat := fun (l : List Rat) (k l' : Nat) => l.getD (k * K + l') 0
+      let flat := fun (f : Nat → Nat → Rat) => (List.range K).flatMap fun k => (List.range K).map fun l => f k l
+      if model == "sisHetPW" then
+        let r := sisHetPW K (p 0) (p 1) (v 0) (v 1) (mat (vs.getD 2 [])) (v 3) (mat (vs.getD 4 [])) (mat (vs.getD 5 []))
+        pure (out K r.1 ++ flat r.2.1 ++ flat r.2.2)
+      else
+        let r := sirHetPW K (p 0) (p 1) (v 0) (v 1) (v 2) (mat (vs.getD 3 [])) (mat (vs.getD 4 []))
+        pure (out K r.1 ++ out K r.2.1 ++ flat r.2.2.1 ++ flat r.2.2.2)
+    | "sisEffDeg" | "sirEffDeg" => do
+      let A ← getNat (← fld j "A")
+      let B ← getNat (← fld j "B")
+      let mat := fun (l : List Rat) (s i : Nat) => l.getD (s * B + i) 0
+      let flat := fun (f : Nat → Nat → Rat) => (List.range A).flatMap fun s => (List.range B).map fun i => f s i
+      if model == "sisEffDeg" then
+        let r := sisEffDeg A B (p 0) (p 1) (mat (vs.getD 0 [])) (mat (vs.getD 1 []))
+        pure (flat r.1 ++ flat r.2)
+      else
+        let r := sirEffDeg A B (p 0) (p 1) (p 2) (mat (vs.getD 0 [])) (p 3)
+        pure (flat r.1 ++ [r.2])
+    | "sisPairBased" | "sirPairBased" => do
+      let adj ← getList (getList getNat) (← fld j "adj")
+      let trl ← getList (getList getRat) (← fld j "tr")
+      let n := adj.length
+      let nbrs := listFn adj []
+      let tr : Nat → Nat → Rat := fun i jn => match (nbrs i).idxOf? jn with
+        | some pos => (trl.getD i []).getD pos 0
+        | none => 0
+      let mat := fun (l : List Rat) (a b : Nat) => l.getD (a * n + b) 0
+      let flat := fun (f : Nat → Nat → Rat) => (List.range n).flatMap fun a => (List.range n).map fun b => f a b
+      if model == "sisPairBased" then
+        let r := sisPairBased nbrs tr (v 0) (v 1) (mat (vs.getD 2 [])) (mat (vs.getD 3 []))
+        pure (out n r.1 ++ flat r.2.1 ++ flat r.2.2)
+      else
+        let r := sirPairBased nbrs tr (v 0) (v 1) (v 2) (mat (vs.getD 3 [])) (mat (vs.getD 4 []))
+        pure (out n r.1 ++ out n r.2.1 ++ flat r.2.2.1 ++ flat r.2.2.2)
+    | "ebcmPrefMix" => do
+      let ks ← getList getNat (← fld j "ks")
+      let m := ks.length
+      let byDeg := fun (l : List Rat) (d : Nat) => match ks.idxOf? d with | some i => l.getD i 0 | none => 0
+      let pnk := fun (d d' : Nat) => match ks.idxOf? d, ks.idxOf? d' with
+        | some a, some b => (vs.getD 1 []).getD (a * m + b) 0
+        | _, _ => 0
+      let r := ebcmPrefMix ks (p 0) (p 1) (p 2) (byDeg (vs.getD 0 [])) pnk (p 3) (byDeg (vs.getD 2 [])) (byDeg (vs.getD 3 []))
+      pure (r.1 :: ks.flatMap fun d => [r.2.1 d, r.2.2 d])
     | _ => .error s!"unknown model {model}")
   pure (Json.mkObj [("ok", Json.bool true), ("dy", jArr jRat res)])
 end DrvODE
